@@ -122,6 +122,46 @@ func runC24(c *engine.Ctx) {
 					}
 				}
 			}
+			if !(missing && once) {
+				// the one-shot flag may travel through results of a helper: count, per path of the evaluated loop, how
+				// often the request is started — at most once when loads keep reporting a missing block, never otherwise
+				okEval := true
+				for _, miss := range []bool{true, false} {
+					isStart := func(in ssa.Instruction) bool {
+						cc, ok := in.(*ssa.Call)
+						return ok && cc.Call.StaticCallee() == starter
+					}
+					ev := &engine.Evaluator{MaxVisits: 3}
+					ev.Input = func(v ssa.Value) (engine.EVal, bool) {
+						if e, ok := v.(*ssa.Extract); ok && e.Index == 1 {
+							if ta, ok := e.Tuple.(*ssa.TypeAssert); ok && ta.CommaOk && types.Identical(ta.AssertedType, missT) {
+								return engine.EVal{K: engine.EBool, B: miss}, true
+							}
+						}
+						return engine.EVal{}, false
+					}
+					ev.CountEvent = func(in ssa.Instruction) int {
+						if isStart(in) {
+							return 1
+						}
+						return 0
+					}
+					seen := false
+					ev.AtEnd = func(at ssa.Instruction, count int, get func(ssa.Value) engine.EVal) {
+						seen = true
+						if (miss && count > 1) || (!miss && count > 0) {
+							okEval = false
+						}
+					}
+					ev.Run(f)
+					if ev.Aborted || !seen {
+						okEval = false
+					}
+				}
+				if okEval {
+					missing, once = true, true
+				}
+			}
 			c.Decide(r1, engine.FuncName(f), ci.Instr.Pos(), missing && once,
 				"the request goes to the network only after a local load reported RemoteMissingBlockErr, guarded by a one-shot flag",
 				fmt.Sprintf("the network request is not tied to the first local miss (after a missing-block result: %v, one-shot: %v): a request whose blocks are all local still contacts the responder, or the request is sent repeatedly", missing, once))
@@ -151,6 +191,47 @@ func runC24(c *engine.Ctx) {
 					okMax = u && t
 				}
 			}
+		}
+	}
+	if !okMax {
+		// however it is spelt: evaluated over all small (user value, blocks traversed) pairs, the count encoded is their maximum
+		okEval, n := true, 0
+		for _, u := range []int64{0, 1, 2} {
+			for _, t := range []int64{0, 1, 2} {
+				want := u
+				if t > u {
+					want = t
+				}
+				ev := &engine.Evaluator{MaxVisits: 2}
+				ev.Input = func(v ssa.Value) (engine.EVal, bool) {
+					if fieldReadOf(v) == userSkip {
+						return engine.EVal{K: engine.EInt, I: u}, true
+					}
+					if call, ok := v.(*ssa.Call); ok && call.Call.IsInvoke() && call.Call.Method.Name() == "NBlocksTraversed" {
+						return engine.EVal{K: engine.EInt, I: t}, true
+					}
+					return engine.EVal{}, false
+				}
+				ev.Observe = func(in ssa.Instruction, get func(ssa.Value) engine.EVal) {
+					cc, ok := in.(*ssa.Call)
+					if !ok {
+						return
+					}
+					if sc := cc.Call.StaticCallee(); sc != nil && engine.FuncPkgPath(sc) == engine.Module+"/donotsendfirstblocks" && len(cc.Call.Args) == 1 {
+						n++
+						if v := get(cc.Call.Args[0]); v.K != engine.EInt || v.I != want {
+							okEval = false
+						}
+					}
+				}
+				ev.Run(starter)
+				if ev.Aborted {
+					okEval = false
+				}
+			}
+		}
+		if okEval && n > 0 {
+			okMax = true
 		}
 	}
 	nameF := c.P.Field("", "ExtensionData", "Name")
